@@ -56,7 +56,7 @@ def near_misses(v, sel, val):
 
 def syntax_ok(sel):
     import re
-    return bool(re.match(r"^([a-z0-9_-]{3,250}(\.(\[\d+\]|[a-z0-9_-]{1,250}))*|id)$", sel))
+    return bool(re.match(r"^([a-z0-9_-]{3,250}(\.(\[\d+\]|[a-z0-9_-]{1,250}))*|id)\Z", sel))
 
 
 def verdict(fn):
